@@ -7395,7 +7395,20 @@ impl Machine {
             }
         };
 
+        // the number of lines read up to that position, as recorded in the position term
+        let lines_read = self.deref_register(3);
+
+        let lines_read = match Number::try_from((lines_read, &self.machine_st.arena.f64_tbl)) {
+            Ok(Number::Fixnum(n)) => usize::try_from(n.get_num()).ok(),
+            _ => None,
+        };
+
         stream.set_position(position);
+
+        if let Some(lines_read) = lines_read {
+            stream.set_lines_read(lines_read);
+        }
+
         Ok(())
     }
 
